@@ -886,6 +886,8 @@ func (ex *Exec) loopCut(st *State, li *loopInfo, pred *ssa.BasicBlock) bool {
 		panic(unsupported(fmt.Sprintf("loop %d re-entered from outside (irreducible or nested re-entry)", li.ordinal)))
 	}
 	st.visited[b.Index]++
+	st.loopHeap = st.heapCopy()
+	st.loopFresh = append([]string(nil), st.fresh...)
 	// snapshot of names at first arrival
 	snap := map[string]nameBinding{}
 	for k, v := range fr.names {
